@@ -66,7 +66,9 @@ func replay(cw *caseWriter, path string) {
 			c17exec(cw, tag, in)
 		case 18, 1801, 1018:
 			c18exec(cw, tag, comp, in)
-		case 1001, 1002, 1003, 1004, 1005, 1006, 1007, 1008, 1009, 1010, 1011, 1012, 1013:
+		case 1011:
+			c11race(cw, tag, in[0])
+		case 1001, 1002, 1003, 1004, 1005, 1006, 1007, 1008, 1009, 1010, 1012, 1013:
 			res := runScenario(int(in[0]), in[1])
 			cw.emit(tag, comp, in, []uint64{uint64(res.events), uint64(res.leaders), uint64(res.acks), uint64(res.crashes), uint64(len(res.findings))}, true)
 			for _, f := range res.findings {
